@@ -592,6 +592,15 @@ func (e *Engine) resolveAssign(s *State, env *Env, a string, w *WriteSet) {
 		w.setAll("calls.go:513")
 		return
 	}
+	if ks, ok := e.ghostAssignKeys(a); ok {
+		for _, k := range ks {
+			w.Heap[k] = true
+		}
+		return
+	}
+	if e.pointeeAssign(s, env, a, w) {
+		return
+	}
 	if strings.HasPrefix(a, "Mem(") {
 		el := strings.TrimSuffix(strings.TrimPrefix(a, "Mem("), ")")
 		w.Heap["Mem|"+el] = true
